@@ -66,6 +66,18 @@ func main() {
 			os.Exit(2)
 		}
 		os.Exit(orch.RunCheck(p, opt))
+	case "selftest":
+		ids := os.Args[2:]
+		if len(ids) == 0 {
+			for id := range all {
+				ids = append(ids, id)
+			}
+		}
+		n := 32
+		if v, err := strconv.Atoi(os.Getenv("VERIF_SELFTEST_N")); err == nil && v > 0 {
+			n = v
+		}
+		os.Exit(orch.SelfTest(all, ids, opt, n))
 	case "warm":
 		env, err := orch.BuildWorlds(opt.VerifDir, opt.RepoDir, true, false, nil)
 		env.Cleanup()
